@@ -192,7 +192,7 @@ def run(rep):
                        "time-out of a single request are recorded separately and are not counted as violations (out of scope per DESIGN.md C01)",
                        "native-stack overflow of the recursive parser/analyzer on deeply nested input is a known finding (c01:native-stack)"]
     run_panic_site_extractor(rep)
-    vlib.prelude(rep, cli=True, extra_modules=['RsjProps.C04Eval', 'RsjProps.C09Eval', 'RsjProps.C01Eval', 'RsjProps.C01Pipeline2', 'RsjProps.C01Pipeline3'])
+    vlib.prelude(rep, cli=True, extra_modules=['RsjProps.C04Eval', 'RsjProps.C09Eval', 'RsjProps.C01Eval', 'RsjProps.C01Pipeline2', 'RsjProps.C01Pipeline3', 'RsjProps.C01EvalNaN'])
     rng = rep.rng
     quick = rep.tier == 'quick'
     # ---- corpus
